@@ -3,6 +3,10 @@
 //@item src/error.rs enum IntervalError
 //@item src/error.rs type CIResult
 
+// std: Iterator::count on a slice iterator consumes what remains (ASSUMED specification of a std function; vstd specifies next() but not count())
+pub assume_specification<'a, T> [<core::slice::Iter<'a, T> as Iterator>::count] (it: core::slice::Iter<'a, T>) -> (r: usize)
+    ensures r as int == vstd::std_specs::iter::IteratorSpec::remaining(&it).len();
+
 // thiserror's generated `From<IntervalError> for CIError` behind `.map_err(|e| e.into())` (rewrite rule R5)
 pub trait MapErrInto<T>: Sized {
     spec fn mapped(self) -> CIResult<T>;
